@@ -110,10 +110,14 @@ class EventDispatcher:
             self._event_queue.append((event_name, args, kwargs))
             return
 
-        # Existance of the referents shall be guaranteed by the
-        # automatic cleanup
+        # Iterate on a copy, as callbacks may add or remove handlers.
+        # A callback may also drop the last reference to a handler that
+        # is still to be served in this copy (eg. by removing its
+        # component): dead references are skipped.
         for handler_ref, method_ref in set(self._events[event_name]):
-            method_ref(handler_ref(), *args, **kwargs)
+            handler = handler_ref()
+            if handler is not None:
+                method_ref(handler, *args, **kwargs)
 
     @property
     def dispatch_enabled(self) -> bool:
